@@ -616,6 +616,13 @@ def c13_7(run):
 
 
 # ----------------------------------------------------------------------------------------------------------------- C13-8
+def _same(a, b):
+    """equality that is simply false when the two values are not even of the same shape (a changed implementation may hand back something else)"""
+    if z3.is_expr(a) and z3.is_expr(b) and a.sort() == b.sort():
+        return a == b
+    return z3.BoolVal(False)
+
+
 @obligation('C13', 'C13-8 clean_account_stale_expired: exactly the used nonces are removed (included / stale), an expired first transaction takes every later one with it, everything else stays; each removal is reported with its reason')
 def c13_8(run):
     def h_expired(ctx):
@@ -674,7 +681,7 @@ def c13_8(run):
                     claim += [z3.ULT(olds[j][1], cur) for j in range(s_)] + [z3.UGE(olds[s_][1], cur), z3.Not(z3.Bool(f'expired_t{s_}'))]
                     for j in range(s_):
                         inc = z3.Or(*[ids[j] == x for x in inc_ids]) if inc_ids else z3.BoolVal(False)
-                        claim += [removed[j][0] == ids[j], z3.If(inc, z3.BoolVal(removed[j][1] == 'IncludedInBlock'), z3.BoolVal(removed[j][1] == 'NonceStale'))]
+                        claim += [_same(removed[j][0], ids[j]), z3.If(inc, z3.BoolVal(removed[j][1] == 'IncludedInBlock'), z3.BoolVal(removed[j][1] == 'NonceStale'))]
                 else:
                     claim.append(z3.BoolVal(len(removed) == k))
                     if len(removed) == k:
@@ -684,10 +691,10 @@ def c13_8(run):
                             c_ = [z3.ULT(olds[j][1], cur) for j in range(s_)]
                             for j in range(s_):
                                 inc = z3.Or(*[ids[j] == x for x in inc_ids]) if inc_ids else z3.BoolVal(False)
-                                c_ += [removed[j][0] == ids[j], z3.If(inc, z3.BoolVal(removed[j][1] == 'IncludedInBlock'), z3.BoolVal(removed[j][1] == 'NonceStale'))]
+                                c_ += [_same(removed[j][0], ids[j]), z3.If(inc, z3.BoolVal(removed[j][1] == 'IncludedInBlock'), z3.BoolVal(removed[j][1] == 'NonceStale'))]
                             if s_ < k:
-                                c_ += [z3.UGE(olds[s_][1], cur), z3.Bool(f'expired_t{s_}'), removed[s_][0] == ids[s_], z3.BoolVal(removed[s_][1] == 'Expired')]
-                                c_ += [z3.And(removed[j][0] == ids[j], z3.BoolVal(removed[j][1] == 'LowerNonceInvalidated')) for j in range(s_ + 1, k)]
+                                c_ += [z3.UGE(olds[s_][1], cur), z3.Bool(f'expired_t{s_}'), _same(removed[s_][0], ids[s_]), z3.BoolVal(removed[s_][1] == 'Expired')]
+                                c_ += [z3.And(_same(removed[j][0], ids[j]), z3.BoolVal(removed[j][1] == 'LowerNonceInvalidated')) for j in range(s_ + 1, k)]
                             alts.append(z3.And(*c_) if c_ else z3.BoolVal(True))
                         claim.append(z3.Or(*alts))
                 run.prove(f'removed = the used nonces (reason included / stale) plus, if the first remaining transaction expired, it (Expired) and all later ones (LowerNonceInvalidated); the rest is kept in order; other accounts untouched {lab}',
